@@ -1080,19 +1080,20 @@ def floors(tier: str) -> dict[str, int]:
     return {
         "evaluations": 30_000_000,
         "loads_compared": 30_000_000,
-        "distinct_nontrivial": 2_000_000,
+        "distinct_nontrivial": 250_000,
+        "nontrivial_histories": 2_000_000,
         "set:configs": 30,
         "exh_histories_done": 15_000_000,
         "lrudeep_histories_done": 200_000,
         "ev:hit": 3_000_000,
         "ev:miss": 20_000_000,
-        "ev:reload": 50_000,
-        "ev:hit-verified": 500_000,
+        "ev:reload": 8_000,
+        "ev:hit-verified": 250_000,
         "ev:miss-failed": 1_000_000,
         "model_evictions": 8_000_000,
         "random_histories": 60_000,
-        "twin_full_renders": 500_000,
-        "schedules_explored": 100_000,
+        "twin_full_renders": 400_000,
+        "schedules_explored": 80_000,
         "sched_scenarios_exhaustive": 500,
         "lrucache_sequences": 3_000_000,
         "thread_quiescent_checks": 800,
